@@ -88,6 +88,7 @@ Proof. reflexivity. Qed.
 
 Lemma step_result c ts h arr tn idx vlen retry t log :
   step c ts (solo_state h arr tn idx vlen retry (PReq t) log) (Result 0) =
+  if is_stall (c_beh c (task_peer ts t) h) then None else
   match accepted (c_beh c (task_peer ts t) h) with
   | Some o => Some (solo_state h arr tn idx vlen retry (POkRel t)
                                (ODeliver (deliver_height h o) (task_peer ts t) :: log))
@@ -96,6 +97,7 @@ Lemma step_result c ts h arr tn idx vlen retry t log :
 Proof.
   unfold step, solo_state, set_g.
   cbn [ev_g s_gs s_arr s_tnum s_idx s_log length Nat.ltb Nat.leb negb nth g_pc g_vlen g_retry g_h upd].
+  destruct (is_stall (c_beh c (task_peer ts t) h)); [reflexivity|].
   destruct (accepted (c_beh c (task_peer ts t) h)) as [[b|]|]; reflexivity.
 Qed.
 
@@ -127,13 +129,14 @@ Proof. reflexivity. Qed.
 (** * The simulation *)
 
 Lemma sim c ts n h : forall k fuel view rest idx retry log,
-  Forall (fun t => t < n) view -> length idx = n -> 51 - retry < k -> 4 * k <= fuel ->
+  Forall (fun t => t < n) view -> stall_free c ts h view = true ->
+  length idx = n -> 51 - retry < k -> 4 * k <= fuel ->
   let r := solo c ts n h k view retry in
   exists arr' tn' idx' vlen' retry',
     run_g fuel c ts (solo_state h (view ++ rest) (zeros n) idx (length view) retry PLoop log) 0
     = solo_state h arr' tn' idx' vlen' retry' (PDone (snd r)) (rev (fst r) ++ log).
 Proof.
-  induction k as [|k IH]; intros fuel view rest idx retry log Hview Hidx Hk Hfuel; [lia|].
+  induction k as [|k IH]; intros fuel view rest idx retry log Hview Hsf Hidx Hk Hfuel; [lia|].
   destruct fuel as [|[|[|[|f]]]]; try lia.
   cbn zeta. cbn [solo]. rewrite run_g_unfold.
   cbn [solo_state s_gs nth next_event g_pc]. fold (solo_state h (view ++ rest) (zeros n) idx (length view) retry PLoop log).
@@ -154,6 +157,10 @@ Proof.
       change s with (solo_state h (view ++ rest) (upd (zeros n) t (nth t (zeros n) 0 + 1)%Z) (upd idx t i)
                                 (length view) (S retry) (PReq t) (OReq h (task_peer ts t) :: log)) end.
     rewrite step_result.
+    assert (Hns : is_stall (c_beh c (task_peer ts t) h) = false).
+    { unfold stall_free in Hsf. apply negb_true_iff.
+      apply (proj1 (forallb_forall _ _) Hsf t). rewrite <- Hnth. apply nth_In. exact Hi. }
+    rewrite Hns.
     destruct (accepted (c_beh c (task_peer ts t) h)) as [a|] eqn:Ha.
     + rewrite run_g_unfold. cbn [solo_state s_gs nth next_event g_pc].
       match goal with |- context [step c ts ?s (Release 0)] =>
@@ -181,6 +188,7 @@ Proof.
                    (OReq h (task_peer ts t) :: log))
         as [arr' [tn' [idx' [vlen' [retry' Hrun]]]]].
       * apply forall_remove_nth. exact Hview.
+      * apply forallb_remove_nth. exact Hsf.
       * rewrite upd_length. exact Hidx.
       * lia.
       * lia.
@@ -191,7 +199,7 @@ Proof.
       change s with (solo_state h (view ++ rest) (zeros n) idx (length view) (S retry) PSleep log) end.
     rewrite step_sleep.
     assert (Hr' : S retry <= max_retry) by (apply Nat.ltb_ge in Hr; exact Hr). unfold max_retry in Hr'.
-    destruct (IH (S (S f)) view rest idx (S retry) log Hview Hidx ltac:(lia) ltac:(lia))
+    destruct (IH (S (S f)) view rest idx (S retry) log Hview Hsf Hidx ltac:(lia) ltac:(lia))
       as [arr' [tn' [idx' [vlen' [retry' Hrun]]]]].
     cbn zeta in Hrun. rewrite Hrun. repeat eexists.
 Qed.
